@@ -226,7 +226,11 @@ func dischargeAllOpt(obls []*Obligation, workDir string, timeoutS int, waitAll b
 				alt = strings.TrimSuffix(f, ".smt2") + ".inst.smt2"
 				os.WriteFile(alt, []byte(o.SMTAlt), 0o644)
 			}
-			o.Result = solveRace2(f, alt, timeoutS, waitAll)
+			budget := timeoutS
+			if o.Expect == "sat" && budget > 5 {
+				budget = 5 // reachability guards only fail on a quick "unsat": no point in waiting for an undecided one
+			}
+			o.Result = solveRace2(f, alt, budget, waitAll)
 			if o.Result.Verdict == "sat" {
 				o.Model = parseModel(o.Result.Output)
 			}
